@@ -460,8 +460,14 @@ impl Counts {
         out.push(("num_recv_streams", cap(self.num_recv_streams)));
         out.push(("max_local_reset_streams", cap(self.max_local_reset_streams)));
         out.push(("num_local_reset_streams", cap(self.num_local_reset_streams)));
-        out.push(("max_remote_reset_streams", cap(self.max_remote_reset_streams)));
-        out.push(("num_remote_reset_streams", cap(self.num_remote_reset_streams)));
+        out.push((
+            "max_remote_reset_streams",
+            cap(self.max_remote_reset_streams),
+        ));
+        out.push((
+            "num_remote_reset_streams",
+            cap(self.num_remote_reset_streams),
+        ));
         out.push((
             "max_local_error_reset_streams",
             self.max_local_error_reset_streams.map(cap).unwrap_or(-1),
@@ -470,8 +476,14 @@ impl Counts {
             "num_local_error_reset_streams",
             cap(self.num_local_error_reset_streams),
         ));
-        out.push(("data_frame_budget_available", cap(self.data_frame_budget.available)));
+        out.push((
+            "data_frame_budget_available",
+            cap(self.data_frame_budget.available),
+        ));
         out.push(("data_frame_budget_max", cap(self.data_frame_budget.max)));
-        out.push(("num_recv_empty_data_frames", cap(self.num_recv_empty_data_frames)));
+        out.push((
+            "num_recv_empty_data_frames",
+            cap(self.num_recv_empty_data_frames),
+        ));
     }
 }
